@@ -143,6 +143,13 @@ MUTANTS = [
      "        return jnp.einsum(\"ab,cb->ca\", self.W[:,1:], x) + self.W[:,0][None]", "        return jnp.einsum(\"ab,cb->ca\", self.W[:,:-1], x) + self.W[:,-1][None]"),
     ("m103-hetero-expected-noise-sign", "firing", ["C16"], A, "HeteroscedasticCoshM1Conditional._integrate_noise_diagonal",
      "        exp_h_minus = factor.LinearFactor(nu=-nu, ln_beta=-ln_beta - jnp.log(2))", "        exp_h_minus = factor.LinearFactor(nu=-nu, ln_beta=ln_beta - jnp.log(2))"),
+    # ---------------- C17
+    ("m105-step-logdet-shared-helper", "firing", ["C17"], A, "HeteroscedasticHeavisideConditional.get_lb_log_det",
+     "        int_ln1pf_h = jnp.log(2.) * vmap(integrate_f_i, out_axes=0)(w, w0)", "        int_ln1pf_h = jnp.log(2.) * self._integrate_noise_diagonal(p_x)"),
+    ("m106-step-logdet-factor", "firing", ["C17"], A, "HeteroscedasticHeavisideConditional.get_lb_log_det",
+     "        int_ln1pf_h = jnp.log(2.) * vmap(integrate_f_i, out_axes=0)(w, w0)", "        int_ln1pf_h = jnp.log(2.) * 0.5 * vmap(integrate_f_i, out_axes=0)(w, w0)"),
+    ("m107-hetero-conditional-cov-drops-AA", "firing", ["C17", "C16"], A, "HeteroscedasticConditional.get_conditional_cov",
+     "        D_x = self.link_function(h) \n        Sigma = self.Sigma + jnp.einsum(", "        D_x = self.link_function(h) \n        Sigma = 2.0 * self.Sigma + jnp.einsum("),
     # ---------------- C18
     ("m110-removed-jax-api", "firing", ["C18"], DC, "register_dataclass_type_with_jax_tree_util",
      "        items = sorted(d.__dict__.items())\n        static = tuple", "        items = sorted(jax.util.safe_zip(d.__dict__.keys(), d.__dict__.values()))\n        static = tuple"),
